@@ -258,14 +258,14 @@ def build_state(world: Dict[str, Any], *, store: Any = None) -> Dict[str, Any]:
     return state
 
 
-def make_ctx(cfg: AttrDict, agent: str, turn_id: Any, now_ms: Optional[int], *, with_now: bool = True, style: str = "both") -> types.SimpleNamespace:
+def make_ctx(cfg: AttrDict, agent: str, turn_id: Any, now_ms: Optional[int], *, with_now: bool = True, style: str = "both", now_ms_float: bool = False) -> types.SimpleNamespace:
     """style "both": ctx.cfg and ctx.config (what most tests build); "cfg_only": the shape of the engine's own TurnCtx dataclass and of
     run_smoke_turn - a `cfg` attribute and no `config`."""
     ctx = types.SimpleNamespace(turn_id=turn_id, agent_id=agent, cfg=cfg)
     if style != "cfg_only":
         ctx.config = cfg
     if now_ms is not None:
-        ctx.now_ms = int(now_ms)
+        ctx.now_ms = float(now_ms) if now_ms_float else int(now_ms)   # callers compute it as time * 1000 often enough
         ctx.now = iso_from_ms(now_ms) if with_now else None
     else:
         ctx.now = None
@@ -675,7 +675,7 @@ class EngineRun:
             agent = op["agent"]
             st["active_graphs"] = list(self.world["agents"].get(agent, sorted(self.world["graphs"])))
             ctx = make_ctx(self.cfg, agent, op.get("turn_id", 0), op.get("now_ms", T0_MS), with_now=op.get("with_now", True),
-                           style=op.get("ctx_style", getattr(self, "ctx_style", "both")))
+                           style=op.get("ctx_style", getattr(self, "ctx_style", "both")), now_ms_float=bool(op.get("now_ms_float")))
             for extra_k, extra_v in (op.get("ctx") or {}).items():
                 setattr(ctx, extra_k, extra_v)
             self.last_ctx = ctx
